@@ -151,6 +151,84 @@ def c03Step (failZero : Bool) (st : C03St) (x : Nat × List String × List Strin
     | _ => st
   | _ => st
 
+/-! ### "still in flight", independently of the links iterator
+
+A datagram is in flight from the moment the link takes it (`EV send`) until it is handed to the destination
+host (`EV delivered`).  The links iterator shows only the part of that set that has not yet matured: a message
+whose latency has already elapsed (a zero-latency send, say) waits in the link's per-destination queue until
+the destination's next turn, invisible to the iterator.  The properties speak of messages *in flight*, so the two
+rules below use the events, not the iterator:
+  * C08 — in flight when `hold` is called ⇒ not delivered while the hold lasts            (pattern F-C08-1)
+  * C03 — in flight in a direction when it is explicitly partitioned ⇒ never delivered      (pattern F-C03-2) -/
+
+def pairKey (a b : Nat) : Nat × Nat := (min a b, max a b)
+
+structure FlightSt where
+  undeliv : List (Nat × Nat × Nat) := []          -- (id, src host, dst host): sent, not yet handed over
+  heldPairs : List (Nat × Nat) := []
+  heldIds : List (Nat × (Nat × Nat)) := []        -- in flight at the hold of that pair
+  cutIds : List Nat := []                         -- in flight in a direction when it was partitioned
+  bad : Option (Nat × String × String) := none    -- line, pattern, detail
+
+def udpIdOf (proto : String) : Option Nat :=
+  if proto.startsWith "udp:" then msgId (proto.drop 4).toString else none
+
+def flightCtl (st : FlightSt) (name a b : String) : FlightSt :=
+  let x := hostTok a
+  let y := hostTok b
+  let k := pairKey x y
+  if name == "hold" || name == "net_hold" then
+    if st.heldPairs.contains k then st else
+    { st with heldPairs := st.heldPairs ++ [k],
+              heldIds := st.heldIds ++ (st.undeliv.filter (fun m => pairKey m.2.1 m.2.2 == k)).map (fun m => (m.1, k)) }
+  else if name == "release" || name == "net_release" || name == "repair" || name == "net_repair" ||
+          name == "repair1" || name == "net_repair1" || name == "deliver" || name == "deliverall" then
+    { st with heldPairs := st.heldPairs.filter (· != k), heldIds := st.heldIds.filter (·.2 != k) }
+  else if name == "partition" || name == "net_partition" then
+    { st with cutIds := st.cutIds ++ (st.undeliv.filter (fun m => pairKey m.2.1 m.2.2 == k)).map (·.1),
+              heldPairs := st.heldPairs.filter (· != k), heldIds := st.heldIds.filter (·.2 != k) }
+  else if name == "partition1" || name == "net_partition1" then
+    { st with cutIds := st.cutIds ++ (st.undeliv.filter (fun m => m.2.1 == x && m.2.2 == y)).map (·.1),
+              heldPairs := st.heldPairs.filter (· != k), heldIds := st.heldIds.filter (·.2 != k) }
+  else st
+
+def flightLine (st : FlightSt) (ln : Nat) (l : String) : FlightSt :=
+  match toks l with
+  | ["EV", "send", src, dst, proto] =>
+    (match addrHost src, addrHost dst, udpIdOf proto with
+     | some s, some d, some id => if s == d then st else { st with undeliv := st.undeliv ++ [(id, s, d)] }
+     | _, _, _ => st)
+  | ["EV", "delivered", src, dst, proto] =>
+    (match addrHost src, addrHost dst, udpIdOf proto with
+     | some s, some d, some id =>
+       let st := if st.bad.isSome then st
+         else if st.cutIds.contains id then
+           { st with bad := some (ln, "F-C03-2", s!"datagram {id} h{s}->h{d} was in flight when its direction was explicitly partitioned and was delivered all the same") }
+         else match st.heldIds.find? (·.1 == id) with
+           | some (_, k) => if st.heldPairs.contains k then
+               { st with bad := some (ln, "F-C08-1", s!"datagram {id} h{s}->h{d} was in flight when the link was held and was delivered while the hold lasted") } else st
+           | none => st
+       { st with undeliv := st.undeliv.filter (·.1 != id) }
+     | _, _, _ => st)
+  | ["OP", _, name, a, b] =>
+    if name.endsWith "_set" then
+      let base := (name.dropEnd 4).toString
+      (a.splitOn ",").foldl (fun st x => (b.splitOn ",").foldl (fun st y => if x != y then flightCtl st base x y else st) st) st
+    else flightCtl st name a b
+  | ["OP", _, name, a, b, _] => if name == "deliver" then flightCtl st name a b else st
+  | _ => st
+
+/-- first breach of the two in-flight rules, if any. -/
+def flightRule (lines : List String) : Option (Nat × String × String) :=
+  let (st, _) := lines.foldl (fun (acc : FlightSt × Nat) l => (flightLine acc.1 acc.2 l, acc.2 + 1)) ({}, 1)
+  st.bad
+
+def withFlightRule (want : String) (lines : List String) (res : OResult) : OResult :=
+  if !res.ok then res else
+  match flightRule lines with
+  | some (ln, pat, detail) => if pat == want then { res with ok := false, line := ln, pattern := pat, detail := detail } else res
+  | none => res
+
 def oracleC03 (lines : List String) : OResult :=
   let cfgT := match lines.find? (·.startsWith "CFG ") with | some l => toks l | none => []
   let failZero := kvGet cfgT "fail" == some "0" && !lines.any (fun l => l.startsWith "OP ctl setfail" || l.startsWith "OP ctl setlinkfail")
@@ -166,12 +244,10 @@ def oracleC03 (lines : List String) : OResult :=
     else res
   let cov := (if st.bad.isEmpty then [] else ["o:badmsgs"]) ++ (if st.good.isEmpty then [] else ["o:goodmsgs"])
   let res := { res with cov := cov }
-  if res.ok then res
+  if res.ok then withFlightRule "F-C03-2" lines res
   else if hasCoin lines then { res with pattern := "F-C03-1" } else res
 
 /-! ### C08 -/
-
-def pairKey (a b : Nat) : Nat × Nat := (min a b, max a b)
 
 structure C08St where
   held : List (Nat × Nat) := []
@@ -301,7 +377,8 @@ def oracleC08 (lines : List String) : OResult :=
       | some (id, s, d) => { res with ok := false, detail := s!"datagram {id} h{s}->h{d} was never delivered" }
       | none => res
     else res
-  { res with cov := (if st.batches.isEmpty then [] else ["o:batch"]) ++ (if st.known.isEmpty && st.batches.isEmpty then [] else ["o:held"]) }
+  withFlightRule "F-C08-1" lines
+    { res with cov := (if st.batches.isEmpty then [] else ["o:batch"]) ++ (if st.known.isEmpty && st.batches.isEmpty then [] else ["o:held"]) }
 
 /-! ### C14 -/
 
